@@ -79,9 +79,32 @@ def _cvc5(assertions, args, timeout_s, want_model):
     return 'unknown', None
 
 
+def _has_div(es):
+    seen, todo = set(), list(es)
+    while todo:
+        e = todo.pop()
+        if e.get_id() in seen:
+            continue
+        seen.add(e.get_id())
+        if z3.is_app(e) and e.decl().kind() in (z3.Z3_OP_BUDIV, z3.Z3_OP_BUREM, z3.Z3_OP_BSDIV, z3.Z3_OP_BSREM, z3.Z3_OP_BUDIV_I, z3.Z3_OP_BUREM_I):
+            return True
+        todo.extend(e.children())
+    return False
+
+
 def solve(assertions, timeout_s=30, want_model=True, portfolio=True, stats=None):
-    """-> ('sat', {name: int|bool}) | ('unsat', None) | ('unknown', None); records which solver answered."""
+    """-> ('sat', {name: int|bool}) | ('unsat', None) | ('unknown', None); records which solver answered.
+    Queries with bit-vector division go to cvc5 --solve-bv-as-int=sum first (DESIGN 1.3): only its UNSAT is taken."""
     t0 = time.time()
+    if portfolio and _has_div([a for a in assertions if z3.is_expr(a)]):
+        res, model = _cvc5([a for a in assertions], ['--solve-bv-as-int=sum'], min(timeout_s, 20), False)
+        if res == 'unsat':
+            if stats is not None:
+                stats['queries'] = stats.get('queries', 0) + 1
+                stats['solver_s'] = stats.get('solver_s', 0.0) + (time.time() - t0)
+                stats.setdefault('by', {})
+                stats['by']['cvc5-bvint:unsat'] = stats['by'].get('cvc5-bvint:unsat', 0) + 1
+            return 'unsat', None
     s = z3.Solver()
     s.set('timeout', int(timeout_s * 1000))
     s.add(*assertions)
@@ -241,6 +264,12 @@ class Check:
             return False
         if res == 'sat':
             inputs = {k: mval(model, v) for k, v in vars.items()}
+            if not isinstance(goal, bool) and z3.is_and(goal):
+                try:
+                    fc = [(i, str(c)[:200]) for i, c in enumerate(goal.children()) if not mval(model, c)]
+                    inputs['__failed_conjuncts__'] = fc[:6]
+                except Exception:
+                    pass
             s._report(name, inputs, replay)
             ok = False
         # known regions: still reproducible?
